@@ -33,7 +33,16 @@ pub fn wire_decode(data: &[u8]) -> Result<(), Failure> {
         Ok(r) => r,
         Err(p) => return Err(Failure::new(format!("C09/decode-{}", p.signature()), format!("decoder panicked on {} bytes: {}", data.len(), p.describe()))),
     };
-    let mine = decode_msg(data).and_then(|d| normalise_model(&d.msg).map(|n| (n, d.consumed)));
+    // A digest that repeats an id is not producible by an encoder (ids are map keys): the decoded
+    // message then legitimately announces fewer bytes than were consumed.
+    let mut dup_digest_ids = false;
+    let mine = decode_msg(data).and_then(|d| {
+        if let WMsg::Syn { digest, .. } | WMsg::SynAck { digest, .. } = &d.msg {
+            let distinct: std::collections::HashSet<&WId> = digest.iter().map(|nd| &nd.id).collect();
+            dup_digest_ids = distinct.len() != digest.len();
+        }
+        normalise_model(&d.msg).map(|n| (n, d.consumed))
+    });
     match (real, mine) {
         (Ok(msg), Ok((model, my_consumed))) => {
             let got = normalise_verif(&verif_describe(&msg));
@@ -43,7 +52,7 @@ pub fn wire_decode(data: &[u8]) -> Result<(), Failure> {
             if consumed != my_consumed {
                 return Err(Failure::new("C08/decoders-disagree-length", format!("real consumed {consumed}, independent {my_consumed}")));
             }
-            if msg.serialized_len() != consumed {
+            if msg.serialized_len() != consumed && !dup_digest_ids {
                 return Err(Failure::new("C08/announced-length", format!("decoded message announces {} bytes, consumed {consumed}", msg.serialized_len())));
             }
             Ok(())
@@ -182,6 +191,21 @@ fn sample_values<S: Strategy>(strategy: S, n: usize, seed: u64) -> Vec<S::Value>
 /// Deterministic seed corpus: valid messages of every kind (small and multi-block) and hostile
 /// datagram sequences.
 pub fn corpus_for(target: &str, n: usize) -> Vec<Vec<u8>> {
+    let mut out = generated_corpus(target, n);
+    // Committed inputs (earlier fuzzer discoveries), named fuzz-<target>-<hash>.
+    if let Ok(rd) = std::fs::read_dir(format!("{VERIF_DIR}/corpus")) {
+        let mut files: Vec<_> = rd.filter_map(|e| e.ok()).map(|e| e.path()).filter(|p| p.file_name().map(|n| n.to_string_lossy().contains(target)).unwrap_or(false)).collect();
+        files.sort();
+        for f in files {
+            if let Ok(data) = std::fs::read(&f) {
+                out.push(data);
+            }
+        }
+    }
+    out
+}
+
+fn generated_corpus(target: &str, n: usize) -> Vec<Vec<u8>> {
     match target {
         "wire_decode" => sample_values(wire_case_strategy(), n, 11)
             .into_iter()
